@@ -44,9 +44,15 @@ func (r *pipeRec) hash() string {
 	return out
 }
 
+// lightEnd: the scenario asks for no full dump at the end of each pipeline
+var lightEnd bool
+
 func fullDump(root ast.Vertex, srcLen int) string {
 	if root == nil {
 		return "<nil root>"
+	}
+	if lightEnd {
+		return "<not dumped>"
 	}
 	return doOp("dumpTP", root, srcLen, nil).out
 }
@@ -65,6 +71,18 @@ func runOps(s *scn.Scenario, pl *scn.Pipeline, rec *pipeRec) {
 			rec.ops[i] = doOp(pl.Ops[i].Kind, rec.parse.root, len(in.Src), pl.Ops[i].Fault)
 			if rec.ops[i].faulted {
 				zzsim.AddProbe(probeC11OpFault, 1)
+			}
+		}
+	}
+	if pl.Keep != "" {
+		// the caller keeps one statement and lets go of the root: whatever the
+		// library ties to the lifetime of the root (finalizers, recycled
+		// blocks) must not take the kept part with it
+		if r, ok := rec.parse.root.(*ast.Root); ok && len(r.Stmts) > 0 && r.Stmts[len(r.Stmts)/2] != nil {
+			rec.parse.root = r.Stmts[len(r.Stmts)/2]
+			zzsim.AddProbe(probeSubtreeKept, 1)
+			if pl.Keep == "subgc" {
+				zzsim.ForceGC()
 			}
 		}
 	}
